@@ -114,6 +114,7 @@ func c01Accessors(p gopacket.Packet, r *vlib.Rand, render bool) {
 		if x, ok := l.(gopacket.ApplicationLayer); ok {
 			x.Payload()
 		}
+		c01OtherReaders(l)
 	}
 	p.VerifyChecksums()
 	if render {
@@ -121,6 +122,32 @@ func c01Accessors(p gopacket.Packet, r *vlib.Rand, render bool) {
 		_ = p.Dump()
 	}
 }
+
+// c01OtherReaders calls every further exported method of a decoded layer that takes no argument (the second-stage
+// readers of a layer: LinkLayerDiscoveryInfo.Decode8021, RADIUS.Len, Dot11.ChecksumValid, IsRequest, ...), found by
+// reflection so that a layer added later is covered too. Methods whose name says they modify the layer are left out.
+// Only a panic is a verdict here; what the methods return is not judged.
+func c01OtherReaders(l gopacket.Layer) {
+	v := reflect.ValueOf(l)
+	if !v.IsValid() || (v.Kind() == reflect.Ptr && v.IsNil()) {
+		return
+	}
+	t := v.Type()
+	for i := 0; i < t.NumMethod(); i++ {
+		m := t.Method(i)
+		if m.Type.NumIn() != 1 || m.Type.IsVariadic() {
+			continue
+		}
+		n := m.Name
+		if strings.HasPrefix(n, "Set") || strings.HasPrefix(n, "Reset") || strings.HasPrefix(n, "Clear") || strings.HasPrefix(n, "Init") || strings.HasPrefix(n, "Add") {
+			continue
+		}
+		c01Readers[n]++
+		v.Method(i).Call(nil)
+	}
+}
+
+var c01Readers = map[string]int{}
 
 // c01Bookkeeping checks the error-layer rules (a)-(c); it returns whether the packet reports an error.
 func c01Bookkeeping(p gopacket.Packet) (hasErr bool, key, desc string) {
@@ -281,6 +308,10 @@ func c01Total(c *vlib.Ctx) {
 					how = "random-64k"
 				}
 				c01One(c, r, t, b, how)
+			}
+			for n, v := range c01Readers {
+				c.CountIn("second_stage_reader_calls_by_method", n, v)
+				delete(c01Readers, n)
 			}
 			c.End()
 		}
